@@ -134,6 +134,13 @@ def make_set(site, noarg_plain):
         def difference(self, *o):
             return CSet(set.difference(self, *o))
 
+        def pop(self):
+            # "an arbitrary element": the first one of the chosen iteration order
+            for x in self:
+                self.remove(x)
+                return x
+            raise KeyError("pop from an empty set")
+
         def __reduce__(self):
             return (set, (list(set.__iter__(self)),))
 
@@ -183,11 +190,12 @@ def hooks(sched):
 # ------------------------------------------------------------------ inputs
 def inputs(tier):
     same = "int dup;\nint dup2;\n"
+    same2 = "int eup;\nint eup2;\n"      # a second duplicate group of the same byte size
     I = []
     I.append({
         "name": "ties+duplicates",
         "files": {"a/x.c": "int x;\n", "a/y.c": "int y;\n", "a/z.c": "int z;\n#ifdef G\nint zg;\n#endif\n", "b/d1.c": same, "b/d2.c": same, "b/d3.c": same,
-                  "c/e1.h": "int e;\n", "c/e2.h": "int e;\n", "top.c": '#include "c/e1.h"\nint t;\n'},
+                  "c/e1.h": same2, "c/e2.h": same2, "top.c": '#include "c/e1.h"\nint t;\n'},
         "links": {},
         "platforms": {"cpu": [{"file": "a/x.c", "args": []}, {"file": "a/z.c", "args": []}, {"file": "top.c", "args": []}],
                       "gpu": [{"file": "a/y.c", "args": []}, {"file": "a/z.c", "args": ["-DG"]}],
@@ -208,6 +216,15 @@ def inputs(tier):
         "links": {},
         "platforms": {"cuda": [{"file": "k.cu", "compiler": "nvcc", "args": ["--gpu-architecture=sm_70", "--gpu-code=sm_70,sm_80"]}, {"file": "w.c", "args": []}],
                       "sycl": [{"file": "o.cpp", "compiler": "icpx", "args": ["-fsycl", "-fopenmp", "-fsycl-targets=spir64,spir64_gen"]}, {"file": "v.c", "args": []}]},
+    })
+    banner = "/* shared\n * banner\n */\n"
+    I.append({
+        "name": "mixed-language",
+        "files": {"shared.h": banner + "#ifdef SOLVER\n      x = 1\n#endif\n#define SHARED 1\n", "k.c": '#include "shared.h"\nint k;\n',
+                  "f.F90": '#include "shared.h"\n      y = 2 ! c\n', "u.c": "int u;\n"},
+        "links": {},
+        "platforms": {"host": [{"file": "k.c", "args": []}], "solver": [{"file": "f.F90", "compiler": "gfortran", "args": ["-DSOLVER"]}],
+                      "hybrid": [{"file": "f.F90", "compiler": "gfortran", "args": []}, {"file": "k.c", "args": []}, {"file": "u.c", "args": []}]},
     })
     if tier == "thorough":
         I.append({
@@ -294,19 +311,8 @@ def _dup_groups(out):
 
 
 def serial_view(obs):
-    """What is compared for serialisation: as printed, except that the order of duplicate *groups* is free."""
-    v = dict(obs)
-    out = obs["codebasin_stdout"]
-    head, sep, tail = out.partition("Duplicates")
-    groups, cur = [], None
-    for ln in tail.splitlines():
-        if ln.startswith("Match "):
-            cur = []
-            groups.append(cur)
-        elif ln.startswith("- ") and cur is not None:
-            cur.append(ln)
-    v["codebasin_stdout"] = head + sep + repr(sorted(groups))
-    return v
+    """What is compared for serialisation: everything exactly as printed / written."""
+    return dict(obs)
 
 
 def _run(arg):
@@ -415,7 +421,7 @@ def hashseed_supplement(tier):
             codebase.write_analysis(root, inp["platforms"], order=sorted(inp["platforms"], reverse=rev))
             r = cli.run_subprocess("codebasin", ["-R", "summary", "-R", "duplicates", "analysis.toml"], root, hashseed=seed)
             body = "\n".join(ln for ln in r["out"].splitlines() if not ln.startswith("Log file created")).replace(root, "$ROOT")
-            outs.add(json.dumps(serial_view({"codebasin_stdout": body})["codebasin_stdout"]))
+            outs.add(body)
             n += 1
             shutil.rmtree(root, ignore_errors=True)
     return n, len(outs)
@@ -460,7 +466,7 @@ def run(tier):
     })
     rep.assumptions = ["choice points: Path._scandir, the name `set` in codebasin.finder/report/config, platform-table order; sets built by literals / comprehensions would escape (none in the anchored paths today; the subprocess supplement would notice)",
                        "one consistent order per distinct collection (as a real hash table or file system gives)",
-                       "the order in which duplicate groups are printed is not compared"]
+                       "after the repair of CodeBase.__iter__ the order of duplicate groups is deterministic too and is compared"]
     return rep
 
 
